@@ -460,6 +460,32 @@ func (w *world) c07Leases(counts map[string]int, reqs map[string]M, items []Item
 		return out
 	}
 	pt, ct, cp := rowsOf(prev, "tasks"), rowsOf(cur, "tasks"), rowsOf(cur, "promises")
+	// "when a promise completes all of ITS outstanding tasks are completed": a live task is finished in a batch only together
+	// with its own root promise, by a completion of that very task, or — a notification — by its first hand-off
+	for id, t := range pt {
+		u := ct[id]
+		if st := jnum(t["state"]); u == nil || !(st == 1 || st == 2 || st == 4) || jnum(u["state"]) != 8 {
+			continue
+		}
+		root := fmt.Sprint(t["rootPromiseId"])
+		if p := cp[root]; p != nil && jnum(p["state"]) != 1 {
+			continue // finished with its promise
+		}
+		if m, _ := t["mesg"].(map[string]any); m != nil && fmt.Sprint(m["type"]) == "notify" {
+			continue
+		}
+		own := false
+		for _, it := range items {
+			rq := reqs[it.Tid]
+			c, _ := rq["c"].(map[string]any)
+			if rq["k"] == "CompleteTask" && c != nil && fmt.Sprint(c["id"]) == id && it.Mode != "before" {
+				own = true
+			}
+		}
+		if !own {
+			return fmt.Sprintf("task %q (root promise %q) was finished by this batch although promise %q is still pending and no completion of the task was requested: %v -> %v", id, root, root, t, u)
+		}
+	}
 	// "a holder that renews its lease before it runs out keeps the task": a heartbeat of process P executed in this batch
 	// renews every task claimed by exactly P (process ids are compared as given) that this batch did not otherwise touch
 	for _, it := range items {
